@@ -2,6 +2,7 @@ import H264.Sei
 import H264.NalSrcProofs
 import H264.SeiMono
 import H264.Tables2
+import H264.TblProof
 /-! # C10 — SEI reader yields exactly the encoded (type, payload) messages, then stays ended
 
 Model: `Sei.next` mirrors `SeiReader::next` over the bytes the RBSP byte reader delivers (`NalSrc.drain`: bytes
@@ -79,5 +80,9 @@ theorem code_payload_types_distinct : Generated.seiType.length = 512 ∧
     (∀ i : Fin 512, Generated.seiType.getD i.val 999 < 998) ∧
     (∀ i : Fin 512, ∀ j : Fin 512, Generated.seiType.getD i.val 999 = Generated.seiType.getD j.val 999 → i = j) :=
   Tables2.seiType_injective
+
+/-- model `Sei.next` = real `SeiReader::next` on the 512 swept one-message SEI RBSPs (type recovered, payload intact), by proof -/
+theorem model_reader_reproduces_code_on_payload_type_sweep :
+    ∀ i : Fin 512, TblProof.seiTypeCode i.val = some (Generated.seiType.getD i.val 999) := TblProof.seiType_model_eq_code
 
 end C10
